@@ -3,7 +3,7 @@
     correspondence case keeps counts below 2^63, where Rust cannot overflow). *)
 From BB Require Export Base.
 
-Definition block := (colour * N)%type.
+Notation block := (colour * N)%type (only parsing).
 Definition span := list block.
 Record tape := mkTape { scan : colour; lspan : span; rspan : span }.
 
